@@ -135,7 +135,7 @@ def gen_case(rng, tier):
     from .. import mixgen
     from ..apps import MAX_N
     frags = (64, 65, 70, 100, 128)
-    cfg = mixgen.draw_config(rng, frags=frags)
+    cfg = mixgen.draw_config(rng, links_allowed=mixgen.WITH_WS, frags=frags)
     for k in ('knobs_c', 'knobs_s'):
         if rng.random() < 0.5:
             cfg[k].drain = ('virtual', rng.choice([1e-4, 1e-3, 0.01, 0.1]))
@@ -208,7 +208,7 @@ def gen_case(rng, tier):
 async def _run(rng, cfg, specs):
     from ..pair import Pair
     p = Pair(rng, cfg)
-    p.driver.horizon = 120.0
+    p.driver.horizon = 1.0e5
     await p.start()
     await p.run_specs(specs)
     await p.close()
